@@ -303,7 +303,7 @@ class C02(RunSpec):
         "generation held both carried-over and newly evaluated individuals"
     )
     monitors = (_mon("C02Truth"),)
-    sizes = {"quick": 160, "thorough": 9000}
+    sizes = {"quick": 160, "thorough": 18000}
 
     def profile(self, rng, idx, tier):
         p = {"dim": (2, 4)}
@@ -394,7 +394,7 @@ class C03(RunSpec):
         "consultation; distinct non-trivial = distinct (engine mix, stack shape) with >=10 consultations at which >=2 demes had non-zero counts"
     )
     monitors = (_mon("C03Counts"),)
-    sizes = {"quick": 200, "thorough": 12000}
+    sizes = {"quick": 200, "thorough": 24000}
 
     def profile(self, rng, idx, tier):
         p = {"dim": (2, 4)}
@@ -673,7 +673,7 @@ class C06(RunSpec):
         "driven to internal termination; distinct non-trivial = distinct (deme class, deactivation cause)"
     )
     monitors = (_mon("C06Life"),)
-    sizes = {"quick": 180, "thorough": 9000}
+    sizes = {"quick": 180, "thorough": 27000}
 
     def profile(self, rng, idx, tier):
         p = {"dim": (2, 3)}
@@ -785,7 +785,7 @@ class C07(RunSpec):
         "distinct non-trivial = distinct tree shapes (multiset of (level, parent id, engine)) observed at boundaries"
     )
     monitors = (_mon("C07Structure"),)
-    sizes = {"quick": 180, "thorough": 9000}
+    sizes = {"quick": 180, "thorough": 18000}
 
     def profile(self, rng, idx, tier):
         p = {"dim": (2, 3)}
@@ -887,7 +887,7 @@ class C08(RunSpec):
         "that free slots; distinct non-trivial = distinct (active census before the round, L, candidates offered) at which a round had to cut"
     )
     monitors = (_mon("C08LevelLimit"),)
-    sizes = {"quick": 200, "thorough": 12000}
+    sizes = {"quick": 200, "thorough": 24000}
 
     def profile(self, rng, idx, tier):
         p = {"dim": (2, 3)}
@@ -953,7 +953,7 @@ class C09(RunSpec):
         "their centroid was first read; distinct non-trivial = distinct (sibling engine, filter, moved-more-than-threshold yes/no) with >=1 decision"
     )
     monitors = (_mon("C09Distance"),)
-    sizes = {"quick": 180, "thorough": 9000}
+    sizes = {"quick": 180, "thorough": 18000}
 
     def profile(self, rng, idx, tier):
         p = {"dim": (2, 3)}
@@ -1049,7 +1049,7 @@ class C11(RunSpec):
         "with an intra-metaepoch pair containing both carried and new individuals"
     )
     monitors = (_mon("C11Breeding"),)
-    sizes = {"quick": 180, "thorough": 9000}
+    sizes = {"quick": 180, "thorough": 36000}
 
     def profile(self, rng, idx, tier):
         p = {"dim": (2, 3), "allow_cutoff": False}
@@ -1086,7 +1086,7 @@ class C12(RunSpec):
         "population sizes; distinct non-trivial = distinct (engine, direction, k_elites, generations) with >=1 strict improvement and >=1 unchanged best"
     )
     monitors = (_mon("C12Elitism"),)
-    sizes = {"quick": 200, "thorough": 12000}
+    sizes = {"quick": 200, "thorough": 36000}
 
     def profile(self, rng, idx, tier):
         p = {"dim": (2, 3)}
@@ -1158,7 +1158,7 @@ class C18(RunSpec):
         "that fill up and LSCs that free slots; distinct non-trivial = distinct (height, mechanism, engine of the sleeper) with >=1 sleep->wake cycle"
     )
     monitors = (_mon("C18Hibernation"),)
-    sizes = {"quick": 220, "thorough": 9000}
+    sizes = {"quick": 220, "thorough": 15000}
 
     def profile(self, rng, idx, tier):
         p = {"dim": (2, 3)}
@@ -1530,7 +1530,7 @@ class C20(RunSpec):
         "random order with call-log length, raw digest and RNG fingerprint compared around it; seeded runs are compared with an undisturbed twin at the end; "
         "distinct non-trivial = distinct (height, engine mix, boundary index) reports with >=3 deme lines"
     )
-    sizes = {"quick": 120, "thorough": 6000}
+    sizes = {"quick": 120, "thorough": 5000}
 
     def profile(self, rng, idx, tier):
         p = {"dim": (2, 3), "max_pop": 12}
